@@ -17,4 +17,5 @@ var Registry = map[string]func(Args) error{
 	"serial":      Serial,
 	"isolation":   Isolation,
 	"write":       Write,
+	"immut":       Immut,
 }
